@@ -1,9 +1,12 @@
 import NeumannModel.Paths.AllWProofs
+import NeumannModel.Paths.AllWFastProofs
 import NeumannModel.Paths.UnionFindProofs
 import NeumannModel.Paths.MstProofs
 import NeumannModel.Paths.TriangleProofs
 import NeumannModel.Paths.KCoreProofs
+import NeumannModel.Paths.SccProofs
 import NeumannModel.Paths.NeighborsProofs
+import NeumannModel.Paths.VarProofs
 import NeumannModel.Paths.AStarCfgProofs
 /-
   C18 — second half of the property theorems: the stored adjacency as the public API shows it
@@ -11,12 +14,34 @@ import NeumannModel.Paths.AStarCfgProofs
   triangle algorithms agree with their textbook definitions on the same graph").
 
   Everything is stated over the model of `AlgoModel.lean` (union-find with rank and path compression,
-  Kruskal, lazy-heap core peeling, forward triangle count — mirrored from the Rust branch by branch) and
+  Kruskal, lazy-heap core peeling, forward triangle count, recursive Tarjan — mirrored from the Rust
+  branch by branch) and
   the declarative notions of `AlgoSpec.lean`, for EVERY graph; hypotheses are only the engine's own
   invariants where a statement needs them (`NodesUnique`: node ids are unique).
 -/
 namespace Neumann.Paths.Props
 open Neumann.Paths
+
+/-! ### find_variable_paths under `max_paths` -/
+
+/-- with `max_paths = k` the answer is a prefix of the untruncated answer: at most `k` matches, every
+    one a qualifying chain within the hop bounds, and all of them when there are at most `k` -/
+theorem varpaths_capped (g : Graph) (cfg : VarCfg) (flt : Flt) (s t k : Nat) (ps : List Path)
+    (h : findVariablePathsCapped g cfg flt s t k = .ok ps) :
+    ps.length ≤ k ∧ (∀ p, p ∈ ps → VarPathOk g cfg flt s t p) ∧
+    ∃ full, findVariablePaths g cfg flt s t = .ok full ∧ ps = full.take k ∧ (full.length ≤ k → ps = full) := by
+  unfold findVariablePathsCapped at h
+  split at h
+  · rename_i full hfull
+    cases h
+    refine ⟨List.length_take_le _ _, ?_, full, hfull, rfl, fun hl => List.take_of_length_le hl⟩
+    intro p hp
+    exact (Neumann.Paths.varpaths_exact g cfg flt s t full hfull p).1 (List.mem_of_mem_take hp)
+  · cases h
+
+/-- non-vacuity: two matches 1 ⇝ 3 within 1..2 hops, `max_paths = 1` keeps the first -/
+example : (findVariablePathsCapped exGraph ⟨1, 2, .out, none, false⟩ Flt.all 1 3 1).toOption
+    = some [⟨[1, 3], [12]⟩] := by decide
 
 /-! ### the stored adjacency: `edges_of` and `neighbors` -/
 
@@ -98,6 +123,12 @@ theorem awp_complete (g : Graph) (mp cap s t : Nat) (r : AllWPaths) (hnn : NonNe
     (hchain : WChainOk g ns es r.total) (hnd : ns.Nodup) :
     { nodes := ns, edges := es } ∈ r.paths :=
   Neumann.Paths.awp_complete g mp cap s t r hnn h hcap hmax ns es hhead hlast hchain hnd
+
+/-- the early-stopping enumeration the driver runs (and the engine's loop performs: it breaks at
+    `max_paths` results) answers exactly what `findAllWeightedPaths` answers -/
+theorem awp_fast_eq (g : Graph) (mp cap s t : Nat) :
+    findAllWeightedPathsFast g mp cap s t = findAllWeightedPaths g mp cap s t :=
+  Neumann.Paths.findAllWeightedPathsFast_eq g mp cap s t
 
 /-- non-vacuity: the diamond 0→1→3, 0→2→3 (weight 2) beside the direct edge of weight 5; `max_paths = 1`
     truncates, `max_parents_per_node = 1` keeps one parent; an unreachable pair; a negative edge -/
@@ -209,6 +240,29 @@ example : EndpointsExist mstExampleGraph ∧ NodesUnique mstExampleGraph ∧ Edg
   rcases he with rfl | rfl | rfl | rfl <;> decide
 example : (minimumSpanningTree mstExampleGraph true).map (fun r => (r.total, r.trees, r.edges.map Edge.id)) = some (3, 2, [2, 4, 1]) ∧
     (mstOf mstExampleGraph false mstExampleGraph.edges.reverse).map (fun r => (r.total, r.trees, r.edges.map Edge.id)) = some (3, 2, [2, 4, 3]) := by decide
+
+/-! ### strongly_connected_components (recursive Tarjan) -/
+
+/-- the successors Tarjan's search follows are the declarative one-step relation: an edge of the
+    requested type followed along its direction (either way when undirected) to another existing node -/
+theorem scc_successors_exact (g : Graph) (etype : Option Nat) (u v : Nat) :
+    v ∈ nbrSet g etype .out u ↔ SStep g etype u v :=
+  Neumann.Paths.mem_nbrSet_out g etype u v
+
+/-- every node lies in exactly one component, exactly once (includes fuel adequacy of the recursion) -/
+theorem scc_partition (g : Graph) (etype : Option Nat) (hn : NodesUnique g) :
+    (sccComponents g etype).flatten.Perm (g.nodes.map (·.id)) :=
+  Neumann.Paths.scc_partition g etype hn
+
+/-- the members of a component are exactly the nodes mutually reachable with any one of its members -/
+theorem scc_exact (g : Graph) (etype : Option Nat) (hn : NodesUnique g) (c : List Nat)
+    (hc : c ∈ sccComponents g etype) (u : Nat) (hu : u ∈ c) (v : Nat) :
+    v ∈ c ↔ (g.hasNode v = true ∧ SReach g etype u v ∧ SReach g etype v u) :=
+  Neumann.Paths.scc_exact g etype hn c hc u hu v
+
+/-- non-vacuity: the directed cycle 1→2→3→1 with the tail 3→4 and the undirected edge 4—5 of type 1 -/
+example : sccComponents tjExG none = [[5, 4], [3, 2, 1]] ∧ sccComponents tjExG (some 0) = [[4], [3, 2, 1], [5]] := by
+  rw [sccComponents_eq_F, sccComponents_eq_F]; decide
 
 /-! ### kcore_decomposition (peeling with a lazy min-heap) -/
 
